@@ -27,7 +27,7 @@ def sites(b):
         m = c.callee.rsplit("::", 1)[-1]
         if (c.callee.startswith("std::option::Option::<T>::") or c.callee.startswith("std::result::Result::<T, E>::")) and m in UNWRAPS:
             t = short_ty(c.term.get("arg_tys", ["?"])[0])
-            out.append(("%s %s" % (m, t), c.line, c.exp))
+            out.append(("unwrap %s" % t, c.line, c.exp))     # unwrap / expect / unwrap_err: one signature
         elif is_panic_call(c):
             # one panic per call; collapse formatting differences; keep the macro that produced it
             mac = (c.exp or "").split("<")[0].replace("$crate::", "").replace("::core::", "").replace("::std::", "")
@@ -119,42 +119,59 @@ def run(ctx, scope=None, name="R-PANIC"):
         return res
     inv = inventory(lib)
     pair_ok, export_closures = auto_discharged(ctx, lib)
+    from ..owners import for_crate, base
+    own = for_crate(lib)
     total = 0
     n_auto = 0
+    # allowances per (reviewed function, signature); a site in a new helper is charged to every reviewed function the
+    # helper is called from (each of them had that site reviewed when the code was still inline)
+    allow = {k: int(v[0]) for k, v in table.items()}
+    used = Counter()
+    existing = {base(i) for i in lib.bodies}
+    orphan = Counter()
+    for k, v in table.items():
+        if k.split("|", 1)[0] not in existing:
+            orphan[k.split("|", 1)[1]] += int(v[0])     # the reviewed function was removed / inlined: its allowance is pooled
+    pending = {}
     for bid, ss in sorted(inv.items()):
-        if scope and not scope(bid):
-            continue
         b = lib.bodies[bid]
-        # sites discharged by an analysis of this very run need no frozen row
-        rest = []
+        owners = sorted(own.of(bid))
+        if scope and not any(scope(o) for o in owners) and not scope(bid):
+            continue
         for sig, line, exp in ss:
+            total += 1
             why = auto_reason(bid, sig, line, pair_ok, export_closures)
             if why:
                 n_auto += 1
-                total += 1
                 res.ok("panic:%s|%s" % (bid, sig), b.where(line), why)
-            else:
-                rest.append((sig, line, exp))
-        ss = rest
-        cnt = Counter(s for s, _, _ in ss)
-        for sig, n in sorted(cnt.items()):
-            total += n
-            key = "%s|%s" % (bid, sig)
-            row = table.get(key)
-            lines = [l for s, l, _ in ss if s == sig]
-            if row is None:
-                res.bad("panic:" + key, "unreviewed panic-capable site in %s: `%s` (x%d, lines %s) - a new obligation nobody discharges"
-                        % (bid, sig, n, lines), b.where(lines[0]))
                 continue
-            allowed, cls = int(row[0]), row[1]
-            if n > allowed:
-                res.bad("panic:" + key, "%s has %d sites `%s`, %d reviewed (class %s; lines %s)" % (bid, n, sig, allowed, cls, lines), b.where(lines[0]))
-            elif cls == "finding":
-                res.bad("panic:" + key, "site `%s` in %s has no justification: %s" % (sig, bid, row[2] if len(row) > 2 else ""), b.where(lines[0]))
-            elif cls == "other" and "TO REVIEW" in (row[2] if len(row) > 2 else ""):
-                res.bad("panic:" + key, "site `%s` in %s has no justification yet" % (sig, bid), b.where(lines[0]))
+            keys = ["%s|%s" % (o, sig) for o in owners]
+            if all(used[k] < allow.get(k, 0) for k in keys):
+                for k in keys:
+                    used[k] += 1
+                row = table[keys[0]]
+                cls = row[1]
+                if cls == "finding":
+                    res.bad("panic:" + keys[0], "site `%s` in %s has no justification: %s" % (sig, bid, row[2] if len(row) > 2 else ""), b.where(line))
+                else:
+                    note = "%s: %s" % (cls, (row[2] if len(row) > 2 else "")[:120])
+                    if base(bid) != owners[0] or len(owners) > 1:
+                        note = "in helper %s, charged to %s; " % (bid, ", ".join(owners)) + note
+                    res.ok("panic:" + keys[0], b.where(line), note)
+            elif orphan[sig] > 0:
+                orphan[sig] -= 1
+                res.ok("panic:%s|%s" % (bid, sig), b.where(line), "uses the allowance of a reviewed function that no longer exists (inlined)")
             else:
-                res.ok("panic:" + key, b.where(lines[0]), "%s x%d: %s" % (cls, n, (row[2] if len(row) > 2 else "")[:120]))
+                pending.setdefault(("%s|%s" % (owners[0], sig), bid, sig), []).append(line)
+    for (key, bid, sig), lines in sorted(pending.items()):
+        b = lib.bodies[bid]
+        k0 = key
+        have = allow.get(k0, 0)
+        if have:
+            res.bad("panic:" + k0, "%s has more sites `%s` than the %d reviewed (extra at lines %s)" % (bid, sig, have, lines), b.where(lines[0]))
+        else:
+            res.bad("panic:" + k0, "unreviewed panic-capable site in %s: `%s` (x%d, lines %s) - a new obligation nobody discharges"
+                    % (bid, sig, len(lines), lines), b.where(lines[0]))
     res.stats["panic_sites"] = total
     res.stats["discharged_by_analysis"] = n_auto
     if not scope:
